@@ -33,9 +33,13 @@ def bound(tier):
 
 def shards(tier, seed):
     out = []
-    alphas = ["ACGTUXYZ"[:k] for k in range(1, 9)] + ["TGCA", "GAT", "XCAZG"]
+    # (the last four contain characters that are special in regular-expression character classes: a range-forming '-', a leading '^',
+    #  ']' and a backslash)
+    alphas = ["ACGTUXYZ"[:k] for k in range(1, 9)] + ["TGCA", "GAT", "XCAZG", "AC-GT", "^AC", "A]C", "A\\C"]
     for al in alphas:
-        for ig in ("", "N", "N-"):
+        for ig in ("", "N", "N-", "N^]"):
+            if set(ig) & set(al) or (ig == "N^]" and len(al) > 4):
+                continue
             out.append(dict(name="ohe/%s/%s" % (al, ig or "none"), kind="ohe", alphabet=al, ignore=ig,
                             weight=(len(al) + len(ig)) ** 4))
     out.append(dict(name="rc", kind="rc", weight=3000))
@@ -192,11 +196,16 @@ def run_chunk(rec, sh, tier):
         for lengths in sets:
             for C in ((1,) if tier == "quick" else (1, 2)):
                 X = []
+                # a list may mix storage types (e.g. an int8 one-hot next to a float PWM): the narrower one first, values exact in all of them
+                mixed = len(lengths) >= 2 and (sum(lengths) + size + overlap) % 2 == 0
+                dts = (torch.int16, torch.float32, torch.float64) if mixed else (torch.float64,) * 3
                 for k, l in enumerate(lengths):
                     x = torch.arange(l, dtype=torch.float64)[None, :] + 100.0 * k + 10000.0 * torch.arange(C, dtype=torch.float64)[:, None]
-                    X.append(x)
+                    if mixed and dts[k % 3].is_floating_point:
+                        x = x + 0.25                     # not an integer: survives only in a floating type
+                    X.append(x.to(dts[k % 3]))
                 Xc = [x.clone() for x in X]
-                case = dict(fn="chunk/unchunk", size=size, overlap=overlap, lengths=list(lengths), channels=C)
+                case = dict(fn="chunk/unchunk", size=size, overlap=overlap, lengths=list(lengths), channels=C, dtypes=[str(x.dtype) for x in X])
                 rec.case(1, 1)
                 st, ch = call(chunk, X, size=size, overlap=overlap)
                 if st != "ok":
@@ -204,8 +213,8 @@ def run_chunk(rec, sh, tier):
                     continue
                 nch = [(l - size) // step + 1 for l in lengths]
                 # chunk content: chunk j of sequence k is X[k][:, j*step : j*step+size]
-                expc = torch.cat([torch.stack([X[k][:, j * step:j * step + size] for j in range(nch[k])]) for k in range(len(X))])
-                if tuple(ch.shape) != tuple(expc.shape) or not torch.equal(ch, expc):
+                expc = torch.cat([torch.stack([X[k][:, j * step:j * step + size] for j in range(nch[k])]).double() for k in range(len(X))])
+                if tuple(ch.shape) != tuple(expc.shape) or not torch.equal(ch.double(), expc):
                     rec.violation("chunk:wrong_value", case, expected=list(expc.shape), observed=list(ch.shape))
                     continue
                 # the lengths as a list, and as ONE tensor object used for two consecutive calls (it must come back unchanged)
@@ -227,7 +236,7 @@ def run_chunk(rec, sh, tier):
                 for k in range(len(X)):
                     covered = size + (nch[k] - 1) * step
                     e = X[k][:, :covered]
-                    if tuple(un[k].shape) != tuple(e.shape) or not torch.equal(un[k], e):
+                    if tuple(un[k].shape) != tuple(e.shape) or not torch.equal(un[k].double(), e.double()):
                         kind = "single_chunk" if nch[k] == 1 else ("two_chunks" if nch[k] == 2 else "many_chunks")
                         rec.violation("unchunk:wrong_value:" + kind, dict(case, seq=k, n_chunks=nch[k]),
                                       expected=e[0, :12], observed=un[k][0, :12] if un[k].ndim == 2 else list(un[k].shape))
